@@ -97,6 +97,36 @@ def one(ctx, C, LP, Fc, klass, fam, seedv, tol):
     return out
 
 
+SEED_FORMS = ["list", "tuple", "bools", "int64", "uint8", "uint64", "bool-array", "float-array", "int8", "numpy-ints"]
+
+
+def seed_form(seedv, key):
+    """the same 0/1 selection in the containers and dtypes a caller may hold it in (np.unpackbits gives uint8)"""
+    if seedv is None:
+        return None, "none"
+    form = SEED_FORMS[key % len(SEED_FORMS)]
+    v = [int(b) for b in seedv]
+    if form == "tuple":
+        return tuple(v), form
+    if form == "bools":
+        return [bool(b) for b in v], form
+    if form == "int64":
+        return np.array(v, dtype=np.int64), form
+    if form == "uint8":
+        return np.array(v, dtype=np.uint8), form
+    if form == "uint64":
+        return np.array(v, dtype=np.uint64), form
+    if form == "bool-array":
+        return np.array(v, dtype=bool), form
+    if form == "float-array":
+        return np.array(v, dtype=float), form
+    if form == "int8":
+        return np.array(v, dtype=np.int8), form
+    if form == "numpy-ints":
+        return [np.int64(b) for b in v], form
+    return v, form
+
+
 def _one(ctx, C, LP, Fc, klass, fam, seedv, tol):
     drv = ctx.driver()
     n = len(Fc) - 1
@@ -116,12 +146,14 @@ def _one(ctx, C, LP, Fc, klass, fam, seedv, tol):
         except Exception:  # noqa
             pass
         ctx.count("cross-kind:P-call-first")
+    seed_arg, sform = seed_form(seedv, zlib.crc32(repr((Fc, seedv, "form")).encode()))
+    ctx.count("seed-form:" + sform)
     try:
         with core.quiet():
             if DEFAULT_TOL[0]:       # the documented default (1e-6), not passed
-                g = C.completion_from_root_finding(np.array(Fc), coef_type="F", seed=seedv)
+                g = C.completion_from_root_finding(np.array(Fc), coef_type="F", seed=seed_arg)
             else:
-                g = C.completion_from_root_finding(np.array(Fc), coef_type="F", seed=seedv, tol=tol)
+                g = C.completion_from_root_finding(np.array(Fc), coef_type="F", seed=seed_arg, tol=tol)
         out = ("ok", g)
     except C.CompletionError as e:
         out = ("CompletionError", str(e)[:50])
@@ -132,7 +164,7 @@ def _one(ctx, C, LP, Fc, klass, fam, seedv, tol):
     ctx.count("outcome:" + out[0])
     ctx.count("class:" + klass)
     ctx.case([Fc, seedv, tol], True, {"n": n, "class": klass, "family": fam, "seed": seedv, "tol": tol, "outcome": out[0], "F": Fc[:5]})
-    replay = {"F": Fc, "seed_vector": seedv, "tol": tol, "class": klass, "in_family": fam}
+    replay = {"F": Fc, "seed_vector": seedv, "seed_form": sform, "tol": tol, "class": klass, "in_family": fam}
     if out[0] != "ok":
         if fam and tol < 1e-6:
             ctx.count("family-raise-at-tol-below-default")      # the family clause is about the default tol (1e-6) or looser
